@@ -105,7 +105,7 @@ def unpriv_window(rng, row, w, case):
         st['dracrs[%d]' % (n - 1)] = rng.choice((1, 2, 1, 5, 6)) << 8
 
 
-PLAN = e1prop.Plan('C02', ROWS, cfgs=('v6', 'v7', 'v6-nosec', 'v5', 'v7-lpae'), classify=classify, case_kw=case_kw, tweak_case=unpriv_window,
+PLAN = e1prop.Plan('C02', ROWS, cfgs=('v6', 'v7', 'v6-nosec', 'v5', 'v7-lpae', 'v7-virt'), classify=classify, case_kw=case_kw, tweak_case=unpriv_window,
                    hooked=(False, False, True))
 
 
